@@ -173,8 +173,13 @@ class AdaptationSet(ObjectWithFields):
         if not self.representations:
             return
         self.timescale = self.representations[0].timescale
-        self.presentationTimeOffset = int(
-            (self.start_number - 1) * self.representations[0].segment_duration)
+        if self.mode == 'live':
+            # the segment times of a live stream count from
+            # availabilityStartTime, whatever number the first segment has
+            self.presentationTimeOffset = 0
+        else:
+            self.presentationTimeOffset = int(
+                (self.start_number - 1) * self.representations[0].segment_duration)
 
         if self.content_type in {'audio', 'text'}:
             for rep in self.representations:
